@@ -75,6 +75,16 @@ type fparams struct {
 	Prefix    int    `json:"prefix"`   // length of the AAD prefix
 	KeyLen    int    `json:"key_len"`
 	FileID    int64  `json:"file_id"` // 0: random identifier chosen by the writer
+	// FileIDLen: length of the explicit identifier (0: 8 bytes).  FileIDShare: the
+	// identifiers of the files of one family (same Seed, FileID = n, n+1, ...)
+	// have their first FileIDShare bytes in common and differ in the next one;
+	// when FileIDShare >= the length, the twin's identifier is this one
+	// extended by 1-4 bytes (see fileIdentifier, twin)
+	FileIDLen   int `json:"file_id_len,omitempty"`
+	FileIDShare int `json:"file_id_share,omitempty"`
+	// KeyShare: all the keys of the configuration (footer key, column keys) have
+	// their first KeyShare bytes in common and differ in the next one (0: independent keys)
+	KeyShare int `json:"key_share,omitempty"`
 	Uniform   bool   `json:"uniform"` // all values present and of fixed size (equal module sizes)
 	AllKeys   bool   `json:"all_keys,omitempty"` // every leaf column has its own key
 	RowSeed   int64  `json:"row_seed,omitempty"` // the rows derive from this seed (0: Seed); the keys always derive from Seed
@@ -84,6 +94,8 @@ type fparams struct {
 	Leaves []string `json:"leaves,omitempty"`
 	// Sized: a file of rowZ rows with one long module (sized.go)
 	Sized *zparams `json:"sized,omitempty"`
+	// Nested: a file of rowN rows, leaf columns with repeated leaf names, keys per column path (nested.go)
+	Nested *nparams `json:"nested,omitempty"`
 	// Hist: this file is file Hist.Index of a history of files that all come
 	// from ONE *EncryptionConfig value and the same writer options
 	Hist *history `json:"hist,omitempty"`
@@ -150,8 +162,11 @@ func (p *fparams) leaves() []string {
 }
 
 func (p *fparams) ownKey(name string) bool {
-	for _, l := range p.leaves() {
+	for i, l := range p.leaves() {
 		if l == name {
+			if p.Nested != nil {
+				return i < len(p.Nested.Classes) && p.Nested.Classes[i] > 0
+			}
 			return p.AllKeys || p.ColKeys && (name == "name" || name == "tags.list.element" || name == "blob")
 		}
 	}
@@ -165,11 +180,73 @@ func derive(seed int64, label string, n int) []byte {
 	return h[:n]
 }
 
+// key: the key the configuration assigns to the footer ("footer") or to the
+// leaf column of that path.  Keys are independent (KeyShare = 0) or members of
+// a family: the first KeyShare bytes in common, the next byte different for
+// every two keys of the configuration.
 func (p *fparams) key(name string) []byte {
 	if name != "footer" && !p.ownKey(name) {
 		name = "footer"
 	}
-	return derive(p.Seed, "key/"+name, p.KeyLen)
+	ord := 0 // number of the key within the configuration
+	if name != "footer" {
+		for i, l := range p.leaves() {
+			if l == name {
+				ord = i + 1
+				if p.Nested != nil {
+					// keys per PATH, the same key VALUE for the paths of one class
+					ord = p.Nested.Classes[i]
+					name = fmt.Sprintf("class/%d", ord)
+				}
+			}
+		}
+	}
+	k := derive(p.Seed, "key/"+name, p.KeyLen)
+	if s := min(p.KeyShare, p.KeyLen-1); s > 0 {
+		fam := derive(p.Seed, "key-family", p.KeyLen)
+		copy(k[:s], fam)
+		k[s] = fam[s] ^ byte(ord+1)
+	}
+	return k
+}
+
+// fileIdentifier: the explicit identifier of the configuration (nil: none).
+func (p *fparams) fileIdentifier() []byte {
+	if p.FileID == 0 {
+		return nil
+	}
+	if p.FileIDLen == 0 && p.FileIDShare == 0 {
+		return derive(p.FileID, "fileid", 8)
+	}
+	n := p.FileIDLen
+	if n == 0 {
+		n = 8
+	}
+	n = min(n, 32)
+	id := derive(p.FileID, "fileid", n)
+	fam := derive(p.Seed, "fileid-family", 32)
+	s := min(p.FileIDShare, n)
+	copy(id[:s], fam)
+	if s < n {
+		id[s] = fam[s] ^ byte(p.FileID%251+1)
+	}
+	return id
+}
+
+// twin: the description of another file of the same family (same keys, schema
+// and rows, the next explicit identifier: same length and FileIDShare leading
+// bytes in common, or, when all bytes are shared, this identifier extended).
+func (p *fparams) twin() *fparams {
+	q := *p
+	q.FileID++
+	n := p.FileIDLen
+	if n == 0 {
+		n = 8
+	}
+	if p.FileIDShare >= n {
+		q.FileIDLen = n + 1 + int(p.FileID%4)
+	}
+	return &q
 }
 
 func (p *fparams) encryption() *parquet.EncryptionConfig {
@@ -186,7 +263,7 @@ func (p *fparams) encryption() *parquet.EncryptionConfig {
 		cfg.AadPrefix = derive(p.Seed, "prefix", p.Prefix)
 	}
 	if p.FileID != 0 {
-		cfg.FileIdentifier = derive(p.FileID, "fileid", 8)
+		cfg.FileIdentifier = p.fileIdentifier()
 	}
 	return cfg
 }
@@ -271,6 +348,9 @@ func codecOf(name string) compress.Codec {
 func (p *fparams) others(sorting bool) []parquet.WriterOption {
 	if p.Sized != nil {
 		return p.sizedOptions()
+	}
+	if p.Nested != nil {
+		return p.nestedOptions()
 	}
 	opts := []parquet.WriterOption{
 		parquet.DataPageVersion(p.V), parquet.Compression(codecOf(p.Codec)),
@@ -715,6 +795,39 @@ func decodeThrift(b []byte, v any) (int, error) {
 // key assignment of the configuration requires.
 type cryptoMDError struct{ what string }
 
+// identifierError: the file does not carry the identifier the configuration names.
+type identifierError struct{ want, got []byte }
+
+func (e *identifierError) Error() string {
+	return fmt.Sprintf("file identifier in the file (%x, %d bytes) differs from the configured one (%x, %d bytes)", e.got, len(e.got), e.want, len(e.want))
+}
+
+// keyError: a module does not open under the key the configuration assigns to
+// it (independent AES-GCM, AAD of the model) but opens under another key of
+// the configuration.
+type keyError struct {
+	mod          module
+	want, opened string
+}
+
+func (e *keyError) Error() string {
+	return fmt.Sprintf("module {%v} does not open with the key configured for %q but opens with the key configured for %q", e.mod, e.want, e.opened)
+}
+
+// otherKey: which other key of the configuration opens the envelope under this AAD ("" none)?
+func (p *fparams) otherKey(keyName string, aad, env []byte) string {
+	names := append([]string{"footer"}, p.leaves()...)
+	for _, n := range names {
+		if n != "footer" && !p.ownKey(n) || bytes.Equal(p.key(n), p.key(keyName)) {
+			continue
+		}
+		if _, _, err := openEnvelope(p.key(n), aad, env); err == nil {
+			return n
+		}
+	}
+	return ""
+}
+
 func (e *cryptoMDError) Error() string { return e.what }
 
 // checkCryptoMD: a column with its own key carries ENCRYPTION_WITH_COLUMN_KEY
@@ -839,8 +952,8 @@ func walk(c *core.Ctx, p *fparams, data []byte) (*walked, error) {
 	if string(data[:4]) != magic {
 		return nil, fmt.Errorf("head magic %q, tail magic %q", data[:4], magic)
 	}
-	if p.FileID != 0 && !bytes.Equal(w.FU, derive(p.FileID, "fileid", 8)) {
-		return nil, fmt.Errorf("file identifier in the file differs from the configured one")
+	if p.FileID != 0 && !bytes.Equal(w.FU, p.fileIdentifier()) {
+		return nil, &identifierError{p.fileIdentifier(), w.FU}
 	}
 	if !bytes.Equal(w.Pfx, p.encryption().AadPrefix) {
 		return nil, fmt.Errorf("AAD prefix in the file differs from the configured one")
@@ -873,6 +986,11 @@ func walk(c *core.Ctx, p *fparams, data []byte) (*walked, error) {
 				off := bytes.Index(footer, enc)
 				aad := add(module{Type: 1, RG: i, Col: j, Off: fstart + off, Len: len(enc), Key: keyName})
 				pt, used, err := openEnvelope(key, aad, enc)
+				if err != nil {
+					if o := p.otherKey(keyName, aad, enc); o != "" {
+						return nil, &keyError{w.Mods[len(w.Mods)-1], keyName, o}
+					}
+				}
 				if err != nil || used != len(enc) {
 					return nil, fmt.Errorf("column metadata module rg %d col %d: %v", i, j, err)
 				}
@@ -894,6 +1012,11 @@ func walk(c *core.Ctx, p *fparams, data []byte) (*walked, error) {
 				}
 				aad := add(module{Type: ix.typ, RG: i, Col: j, Off: ix.off, Len: ix.len, Key: keyName})
 				pt, used, err := openEnvelope(key, aad, data[ix.off:ix.off+ix.len])
+				if err != nil {
+					if o := p.otherKey(keyName, aad, data[ix.off:ix.off+ix.len]); o != "" {
+						return nil, &keyError{w.Mods[len(w.Mods)-1], keyName, o}
+					}
+				}
 				if err != nil || used != ix.len {
 					return nil, fmt.Errorf("page index module %d rg %d col %d: %v", ix.typ, i, j, err)
 				}
@@ -920,6 +1043,9 @@ func walk(c *core.Ctx, p *fparams, data []byte) (*walked, error) {
 					aad := add(module{Type: typ, RG: i, Col: j, Page: ord, Off: pos, Key: keyName})
 					pt, used, err := openEnvelope(key, aad, data[pos:end])
 					if err != nil {
+						if o := p.otherKey(keyName, aad, data[pos:end]); o != "" {
+							return nil, &keyError{w.Mods[len(w.Mods)-1], keyName, o}
+						}
 						return nil, fmt.Errorf("page module type %d rg %d col %d page %d at %d: %v", typ, i, j, ord, pos, err)
 					}
 					w.Mods[len(w.Mods)-1].Len = used
@@ -958,6 +1084,9 @@ func walk(c *core.Ctx, p *fparams, data []byte) (*walked, error) {
 					aad := add(module{Type: typ, RG: i, Col: j, Off: pos, Key: keyName})
 					_, used, err := openEnvelope(key, aad, data[pos:])
 					if err != nil {
+						if o := p.otherKey(keyName, aad, data[pos:]); o != "" {
+							return nil, &keyError{w.Mods[len(w.Mods)-1], keyName, o}
+						}
 						return nil, fmt.Errorf("bloom filter module %d rg %d col %d: %v", typ, i, j, err)
 					}
 					w.Mods[len(w.Mods)-1].Len = used
@@ -1092,6 +1221,57 @@ func checkWriterModel(c *core.Ctx, p *fparams, w *walked) bool {
 				c.Mismatch("corr:C18.writer", req, strings.Join(got, ","), want, p)
 				ok = false
 			}
+		}
+	}
+	return ok
+}
+
+// checkKeyModel: the key assignment of the model (writer_key of Aad/Keys.v over
+// the ColumnKeys map of the configuration, looked up by the dot-joined PATH)
+// against the file: for every column chunk of the first row group, whether its
+// crypto_metadata names a column key, and which key value opened its modules
+// in walk (0: the footer key; equal numbers: equal key values).
+func checkKeyModel(c *core.Ctx, p *fparams, w *walked) bool {
+	if !c.HasOracle() || len(w.Meta.RowGroups) == 0 {
+		return true
+	}
+	cfg := p.encryption()
+	var names []string
+	for n := range cfg.ColumnKeys {
+		names = append(names, n)
+	}
+	sort.Strings(names)
+	num := map[string]int{}
+	var items []string
+	for _, n := range names {
+		k := string(cfg.ColumnKeys[n])
+		if num[k] == 0 {
+			num[k] = len(num) + 1
+		}
+		items = append(items, fmt.Sprintf("%s:%x", core.Hexs([]byte(n)), num[k]))
+	}
+	m := "_"
+	if len(items) > 0 {
+		m = strings.Join(items, ",")
+	}
+	ok := true
+	for j := range w.Meta.RowGroups[0].Columns {
+		if j >= len(p.leaves()) {
+			break
+		}
+		var comps []string
+		for _, s := range strings.Split(p.leaves()[j], ".") {
+			comps = append(comps, core.Hexs([]byte(s)))
+		}
+		impl := "0 0"
+		if cm, own := w.Meta.RowGroups[0].Columns[j].CryptoMetadata.Value.(*format.EncryptionWithColumnKey); own {
+			// walk opened the modules of the chunk with the key configured for this path
+			impl = fmt.Sprintf("%x 1", num[string(cfg.ColumnKeys[strings.Join(cm.PathInSchema, ".")])])
+		}
+		req := fmt.Sprintf("c18.colkey %s %s", m, strings.Join(comps, ","))
+		if ans := c.Ask(req); ans != impl {
+			c.Mismatch("corr:C18.column-key", req+" (column "+p.leaves()[j]+")", impl, ans, p)
+			ok = false
 		}
 	}
 	return ok
@@ -1344,6 +1524,18 @@ func genParams(c *core.Ctx, i int) *fparams {
 	}
 	if r.Intn(2) == 0 {
 		p.FileID = 1 + r.Int63n(1<<40)
+		// the explicit identifier: 8 bytes in one file of three, else 1..24 bytes
+		if r.Intn(3) != 0 {
+			p.FileIDLen = 1 + r.Intn(24)
+		}
+	}
+	// the keys of the configuration: independent, or a family with a common
+	// prefix of 1 .. KeyLen-1 bytes (often 16: the AES-128 part of a longer key)
+	switch r.Intn(4) {
+	case 0:
+		p.KeyShare = 1 + r.Intn(p.KeyLen-1)
+	case 1:
+		p.KeyShare = min(16, p.KeyLen-1)
 	}
 	// how the options reach the writer: given directly to NewGenericWriter in
 	// one file of three, a random route otherwise
@@ -1531,7 +1723,9 @@ func shrinkHistory(c *core.Ctx, p *fparams) *fparams {
 		func(q *fparams) bool { ok := q.Prefix != 0; q.Prefix = 0; return ok },
 		func(q *fparams) bool { ok := q.AllKeys; q.AllKeys = false; q.ColKeys = true; return ok },
 		func(q *fparams) bool { ok := q.ColKeys || q.AllKeys; q.ColKeys, q.AllKeys = false, false; return ok },
-		func(q *fparams) bool { ok := q.KeyLen != 16; q.KeyLen = 16; return ok },
+		func(q *fparams) bool { ok := q.KeyShare != 0; q.KeyShare = 0; return ok },
+		func(q *fparams) bool { ok := q.FileIDLen != 0; q.FileIDLen = 0; return ok },
+		func(q *fparams) bool { ok := q.KeyLen != 16; q.KeyLen = 16; q.KeyShare = min(q.KeyShare, 15); return ok },
 		func(q *fparams) bool { ok := q.PageRows < 64; q.PageRows = 64; return ok },
 		func(q *fparams) bool { ok := !q.Uniform; q.Uniform = true; return ok },
 	}
@@ -1580,6 +1774,14 @@ func checkData(c *core.Ctx, p *fparams, rows []rowP, data []byte, record bool) (
 		fail("crypto-metadata", "the column chunk metadata of the written footer does not state the key of the column: "+cme.what+"; "+back)
 		return false, nil
 	}
+	var ke *keyError
+	if errors.As(err, &ke) {
+		// per-column keys: the module of a column is sealed under the key of
+		// another one (or of the footer), whoever holds that key reads the column
+		// and a reader elsewhere holding the configured key does not
+		fail("sealed-with-another-key", "independent AES-GCM (crypto/aes, cipher.NewGCM) on the bytes of the written file: "+ke.Error()+": the file is not encrypted under the key assignment of its configuration")
+		return false, nil
+	}
 	if err != nil {
 		// the property predicates first, on the bytes as they are: nothing in
 		// clear, nothing for a reader without keys
@@ -1609,6 +1811,9 @@ func checkData(c *core.Ctx, p *fparams, rows []rowP, data []byte, record bool) (
 		return ok, nil
 	}
 	if !checkWriterModel(c, p, w) {
+		ok = false
+	}
+	if !checkKeyModel(c, p, w) {
 		ok = false
 	}
 	if !checkModelHistories(c, p, w, data, 6) {
@@ -1692,6 +1897,9 @@ func checkData(c *core.Ctx, p *fparams, rows []rowP, data []byte, record bool) (
 		ok = false
 	}
 	if ok && !missingKey(c, p, rows, data) {
+		ok = false
+	}
+	if ok && !wrongKeyProbe(c, p, rows, data) {
 		ok = false
 	}
 	if record {
@@ -1888,6 +2096,35 @@ func missingKey(c *core.Ctx, p *fparams, rows []rowP, data []byte) bool {
 	return ok
 }
 
+// wrongKeyProbe: a reader whose retriever answers, for ONE key of the
+// configuration (the footer key or the key of one column), the right key with
+// one bit inverted at a random position (the right key was used before in this
+// process: by the writer and by the reads above) must get an error, whatever
+// OpenFile loads eagerly.
+func wrongKeyProbe(c *core.Ctx, p *fparams, rows []rowP, data []byte) bool {
+	names := []string{"footer"}
+	for _, l := range p.leaves() {
+		if p.ownKey(l) {
+			names = append(names, l)
+		}
+	}
+	// a function of the parameters, so that a failing file shrinks and replays
+	h := &smix{uint64(p.Seed)*31 + uint64(p.RowSeed) + uint64(p.KeyLen)*977}
+	name := names[h.next()%uint64(len(names))]
+	at := 1 + int(h.next()%uint64(p.KeyLen))
+	skip := int(h.next() % 3)
+	ks := &keyset{p: p, wrong: map[string][]byte{name: p.wrongKey(name, at)}}
+	cls, what := classify(p, rows, data, ks, skipOptions(skip)...)
+	c.Res.Evaluations++
+	c.Case(fmt.Sprintf("wrong-key/len=%d/byte>=16:%v/key=%s", p.KeyLen, at > 16, map[bool]string{true: "footer", false: "column"}[name == "footer"]), fmt.Sprintf("%s|%s|%d|%d", p, name, at, skip), true)
+	if cls == "error" {
+		return true
+	}
+	c.Violation("wrong-key-accepted", fmt.Sprintf("reader whose key for %q is the right %d-byte key with one bit of byte %d inverted (skip option set %d): the read returned %s (%s) instead of an error; file %s", name, p.KeyLen, at-1, skip, cls, what, p),
+		map[string]any{"kind": "file", "params": p})
+	return false
+}
+
 // ---------------------------------------------------------------------------
 // (d) tamper enumeration
 
@@ -1898,6 +2135,12 @@ type mutation struct {
 	Src  *module `json:"src,omitempty"`   // transplant: the module copied over the target
 	Val  uint32 `json:"val,omitempty"`    // length: new value of the length field
 	Key  string `json:"keyname,omitempty"` // wrong-key: which key the reader gets wrong
+	// wrong-key: KeyByte = k > 0: the wrong key is the right one with one bit of
+	// its byte k-1 inverted (0: an independent key); Skip: what the reader does
+	// not load on OpenFile, so that the first module it meets under the wrong
+	// column key is a page index / a bloom filter / a page (1: SkipPageIndex, 2: + SkipBloomFilters)
+	KeyByte int `json:"key_byte,omitempty"`
+	Skip    int `json:"skip,omitempty"`
 	// xfile: the source file. 0: the twin (another writer and configuration with
 	// the next explicit identifier; in a history the previous file, or the next
 	// one for file 0); k+1: file k of the history
@@ -1911,8 +2154,8 @@ type tamperCase struct {
 }
 
 // classify runs the full read on tampered bytes.  The property: an error.
-func classify(p *fparams, rows []rowP, tampered []byte, ks parquet.KeyRetriever) (string, string) {
-	o := p.touchAll(tampered, ks, rows)
+func classify(p *fparams, rows []rowP, tampered []byte, ks parquet.KeyRetriever, opts ...parquet.FileOption) (string, string) {
+	o := p.touchAll(tampered, ks, rows, opts...)
 	switch {
 	case o.Panic != "":
 		return "panic", o.Panic
@@ -1954,9 +2197,8 @@ func buildTamperPair(c *core.Ctx, p *fparams, from int) (*tfile, *tfile) {
 		if t == nil {
 			return nil, nil
 		}
-		q := *p
-		q.FileID++ // same keys, same schema, same rows: another file
-		return t, buildTamperFile(c, &q)
+		// same keys, same schema, same rows: another file
+		return t, buildTamperFile(c, p.twin())
 	}
 	all, err := p.writeAll()
 	if err != nil {
@@ -2043,14 +2285,35 @@ func (t *tfile) apply(tc *tamperCase, other *tfile) []byte {
 // eval applies the mutation and classifies the read ("" = does not apply).
 func (t *tfile) eval(tc *tamperCase, other *tfile) (string, string) {
 	if tc.Mut.Kind == "wrong-key" {
-		ks := &keyset{p: t.p, wrong: map[string][]byte{tc.Mut.Key: derive(t.p.Seed, "wrong/"+tc.Mut.Key, t.p.KeyLen)}}
-		return classify(t.p, t.rows, t.data, ks)
+		ks := &keyset{p: t.p, wrong: map[string][]byte{tc.Mut.Key: t.p.wrongKey(tc.Mut.Key, tc.Mut.KeyByte)}}
+		return classify(t.p, t.rows, t.data, ks, skipOptions(tc.Mut.Skip)...)
 	}
 	d := t.apply(tc, other)
 	if d == nil {
 		return "", ""
 	}
 	return classify(t.p, t.rows, d, &keyset{p: t.p})
+}
+
+// wrongKey: an independent key of the same length (at = 0) or the right key
+// with one bit of byte at-1 inverted.
+func (p *fparams) wrongKey(name string, at int) []byte {
+	if at <= 0 || at > p.KeyLen {
+		return derive(p.Seed, "wrong/"+name, p.KeyLen)
+	}
+	k := append([]byte{}, p.key(name)...)
+	k[at-1] ^= 1 << uint(at%8)
+	return k
+}
+
+func skipOptions(skip int) []parquet.FileOption {
+	switch skip {
+	case 1:
+		return []parquet.FileOption{parquet.SkipPageIndex(true)}
+	case 2:
+		return []parquet.FileOption{parquet.SkipPageIndex(true), parquet.SkipBloomFilters(true)}
+	}
+	return nil
 }
 
 func (t *tfile) runCase(c *core.Ctx, tc *tamperCase, other *tfile) bool {
@@ -2076,7 +2339,7 @@ func (t *tfile) report(c *core.Ctx, tc *tamperCase, cls, what string) bool {
 	}
 	src := ""
 	if tc.Mut.Kind == "xfile" {
-		src = " taken from a twin file written with the same keys and another explicit identifier"
+		src = fmt.Sprintf(" taken from a twin file written with the same keys and the explicit identifier %x (%d bytes; this file: %x, %d bytes)", t.p.twin().fileIdentifier(), len(t.p.twin().fileIdentifier()), t.p.fileIdentifier(), len(t.p.fileIdentifier()))
 		if h := t.p.Hist; h != nil {
 			j := tc.Mut.From - 1
 			if tc.Mut.From == 0 {
@@ -2086,6 +2349,15 @@ func (t *tfile) report(c *core.Ctx, tc *tamperCase, cls, what string) bool {
 			}
 			src = fmt.Sprintf(" taken from file %d and put into file %d of: %s, no FileIdentifier configured", j, h.Index, h.describe())
 		}
+	}
+	if tc.Mut.Kind == "wrong-key" {
+		wk := "an independent key of the same length"
+		if tc.Mut.KeyByte > 0 {
+			wk = fmt.Sprintf("the right %d-byte key with one bit of byte %d inverted", t.p.KeyLen, tc.Mut.KeyByte-1)
+		}
+		c.Violation(class, fmt.Sprintf("reader whose key for %q is %s (the right key was used before in this process; skip option set %d): the read returned %s (%s) instead of an error; file %s", tc.Mut.Key, wk, tc.Mut.Skip, cls, what, t.p),
+			map[string]any{"kind": "tamper", "case": tc})
+		return false
 	}
 	c.Violation(class, fmt.Sprintf("%s of module {%v} (%+v, source {%v}%s): the read returned %s (%s) instead of an error; file %s", tc.Mut.Kind, tc.Target, tc.Mut, tc.Mut.Src, src, cls, what, t.p),
 		map[string]any{"kind": "tamper", "case": tc})
@@ -2112,6 +2384,16 @@ func tamperParams(c *core.Ctx, i int) *fparams {
 	}
 	if i >= 6 && i%7 == 0 {
 		p.AllKeys = true
+	}
+	// explicit identifiers of 8 / more / fewer bytes whose twins share a prefix
+	if p.FileID != 0 && i%2 == 1 {
+		p.FileIDLen = []int{12, 5, 16, 9}[(i/6)%4]
+		p.FileIDShare = []int{8, 4, 15, 9}[(i/6)%4]
+	}
+	// key families: the first 16 bytes (or all but the last byte) in common
+	if i%3 != 0 {
+		p.KeyShare = []int{16, p.KeyLen - 1}[(i/3)%2]
+		p.KeyShare = min(p.KeyShare, p.KeyLen-1)
 	}
 	return p
 }
@@ -2148,6 +2430,7 @@ func shrinkTamper(c *core.Ctx, tc *tamperCase) *tamperCase {
 		}
 	}
 	try(func(p *fparams) { p.Bloom = false })
+	try(func(p *fparams) { p.KeyShare = 0 })
 	try(func(p *fparams) { p.ColKeys = false; p.AllKeys = false })
 	try(func(p *fparams) { p.AllKeys = false })
 	try(func(p *fparams) { p.Prefix = 0 })
@@ -2228,8 +2511,20 @@ func enumerate(c *core.Ctx, t *tfile, other *tfile, kind string, onlyType int, s
 				names = append(names, l)
 			}
 		}
+		// every key of the configuration x (an independent key; the right key
+		// with one bit inverted in byte 0, 1, ... KeyLen-1) x what OpenFile loads
 		for _, k := range names {
-			out = append(out, tamperCase{*t.p, module{Type: -1, Key: k}, mutation{Kind: "wrong-key", Key: k}})
+			for at := 0; at <= t.p.KeyLen; at++ {
+				for skip := 0; skip < 3; skip++ {
+					if k == "footer" && skip > 0 && at%8 != 1 {
+						continue // the footer is opened first whatever is skipped
+					}
+					if skip != at%3 && at%4 != 1 && at != 0 {
+						continue // one option set per position, all three for every fourth
+					}
+					out = append(out, tamperCase{*t.p, module{Type: -1, Key: k}, mutation{Kind: "wrong-key", Key: k, KeyByte: at, Skip: skip}})
+				}
+			}
 		}
 	}
 	return out
@@ -2549,18 +2844,84 @@ func scenarioStrippedSignature(c *core.Ctx) {
 	}
 }
 
+// scenarioIdentifierPairs: pairs of small files written with the same keys,
+// schema and rows and two explicit identifiers: of every length 1..20 sharing
+// their first 0..length-1 bytes, or one a proper prefix of the other.  The
+// identifiers differ, so a module of one file put at the same position of the
+// other must be refused (and each file carries the identifier it was given:
+// walk).
+func scenarioIdentifierPairs(c *core.Ctx) {
+	pairs, moved := 0, 0
+	k := 0
+	for n := 1; n <= 20; n++ {
+		for share := 0; share <= n; share++ {
+			k++
+			if c.Quick() && n > 2 && share != 0 && share != n && share != 8 && share != n-1 && (k+int(c.Rng.Int63n(3)))%3 != 0 {
+				continue // quick: no sharing, all but one byte, 8 bytes, proper prefix; a third of the others
+			}
+			p := &fparams{Seed: c.Rng.Int63n(1 << 40), Rows: 4, V: 1 + k%2, Codec: "uncompressed", PageRows: 4, Dict: k%5 == 0,
+				EncFooter: k%2 == 0, ColKeys: k%3 == 0, KeyLen: []int{16, 24, 32}[k%3], Uniform: true,
+				FileID: 1 + c.Rng.Int63n(1<<40), FileIDLen: n, FileIDShare: share}
+			if k%4 == 0 {
+				p.Prefix = 1 + k%7
+			}
+			t, other := buildTamperPair(c, p, 0)
+			if t == nil || other == nil {
+				continue
+			}
+			pairs++
+			c.Case(fmt.Sprintf("identifier-pair/len=%d/%s", n, map[bool]string{true: "proper-prefix", false: "shared-bytes"}[share == n]), fmt.Sprintf("%d/%d/%x/%x", n, share, t.w.FU, other.w.FU), true)
+			if bytes.Equal(t.w.FU, other.w.FU) {
+				c.Violation("file-identifier-collapsed", fmt.Sprintf("two files written with the distinct explicit identifiers %x and %x carry the same aad_file_unique %x; file %s", p.fileIdentifier(), p.twin().fileIdentifier(), t.w.FU, p),
+					map[string]any{"kind": "file", "params": p})
+				return
+			}
+			cands := enumerate(c, t, other, "xfile", -1, 1, true)
+			c.Rng.Shuffle(len(cands), func(a, b int) { cands[a], cands[b] = cands[b], cands[a] })
+			seen := map[int]bool{}
+			for ci := range cands {
+				tc := &cands[ci]
+				if c.Quick() && (seen[tc.Target.Type] || len(seen) >= 3) {
+					continue
+				}
+				seen[tc.Target.Type] = true
+				moved++
+				cls, what := t.eval(tc, other)
+				if cls == "" || cls == "error" {
+					t.report(c, tc, cls, what)
+					continue
+				}
+				min := shrinkTamper(c, tc)
+				if min != tc {
+					if mt, mo := buildTamperPair(c, &min.Params, min.Mut.From); mt != nil && !mt.runCase(c, min, mo) {
+						return
+					}
+				}
+				t.report(c, tc, cls, what)
+				return
+			}
+		}
+	}
+	c.Note("identifier pairs: %d pairs of files with explicit identifiers of 1..20 bytes sharing a prefix, %d modules moved to the same position of the other file", pairs, moved)
+	if moved == 0 {
+		c.Violation("harness-vacuous", "no module was moved between two files with explicit identifiers", nil)
+	}
+}
+
 // ---------------------------------------------------------------------------
 
 func run(c *core.Ctx) {
 	c.Res.Rule = "files: rows of 5 columns (int64, string, optional string, list of strings, int64; every value a 60-bit random marker) written with random options " +
-		"(page version, codec, dictionary, row groups, rows per page, bloom filters, key length, AAD prefix, chosen or random file identifier) x {encrypted, signed plaintext footer} x {footer key only, own keys for two columns, own keys for all columns}; " +
-		"each file is parsed independently (own AES-GCM, AADs from the model; crypto_metadata of every column chunk = the variant and path the key assignment requires) module by module, read back (all rows, after SeekToRow with and without page index, page cursors with random histories, reader lacking a column key, reader holding the footer key only) and scanned for markers; " +
+		"(page version, codec, dictionary, row groups, rows per page, bloom filters, key length 16/24/32 with independent keys or a family of keys sharing their first 1..len-1 bytes (often 16), AAD prefix, random file identifier or an explicit one of 8 or 1..24 bytes, which the file must carry as given) x {encrypted, signed plaintext footer} x {footer key only, own keys for two columns, own keys for all columns}; " +
+		"each file is parsed independently (own AES-GCM, AADs from the model; crypto_metadata of every column chunk = the variant and path the key assignment requires) module by module, read back (all rows, after SeekToRow with and without page index, page cursors with random histories, reader lacking a column key, reader holding the footer key only, reader whose footer key or one column key is the right key with one bit inverted at a position drawn from the whole key) and scanned for markers; a module that opens under another key of the configuration than the one assigned to its column is a violation; " +
 		"the options reach the writer directly (NewGenericWriter, one file of three) or by a random route: constructor NewGenericWriter / NewWriter (rows one by one) / NewSortingWriter (rows handed over in another order, file ordered by id) / the function Write, and a random tree over {other options, WithEncryption(the configuration), 0-2 WithEncryption(decoy configuration)} with runs of options wrapped in NewWriterConfig(...) or in a WriterConfig value used as an option, kept when the model (effective_encryption) says the configuration of the file is the one used; every such file is checked like a directly configured one, plus a reader WITHOUT keys (rows, first page of every chunk) that must obtain no written value; " +
 		"sized modules: files of (int64, byte array) rows where one module -- a data page holding one long value (and the header carrying its statistics), a data page of many values under a large PageBufferSize, a dictionary page, a bloom filter bitset -- has a length field at 2^16, 2^20, 2^20+28 (each -1/0/+1, reached exactly by measuring a first file), random up to 3 MiB, and 2^24, x footer mode x page version x codec x key assignment: independent parse, length fields against the model (len_field, stream_accepts), round trip (all rows, without page index, after SeekToRow, bloom filters, ReadDictionary), scan for pieces of the values, reader without keys; " +
 		"histories: 2-3 files written from ONE EncryptionConfig value (new writers constructed from it one after another or all up front, writers reused through Reset: nr nn nrr nrn nnr nnn) x footer mode x key assignment, every file checked like a fresh file, " +
 		"and, when no identifier is configured, pairwise distinct aad_file_unique and rejection of modules of one file put at the same ordinals of another; " +
-		"tamper enumeration on small files with equal-sized modules: one bit of every byte (quick: every 9th byte and the 20 first/last) of every module, length field values, file truncation inside a module, " +
-		"every replacement of a module by another of the same type and size (same file; twin file with the same keys and another explicit identifier; second file from the same configuration value without identifier, by another writer or by the same writer after Reset), wrong keys. A case = one file check or one tampered read; non-trivial = the file has more than 8 modules / any tampered read."
+		"identifier pairs: pairs of small files with the same keys and rows and two explicit identifiers of 1..20 bytes sharing their first 0..all-but-one bytes, or one a proper prefix of the other: modules moved to the same position of the other file must be refused; " +
+		"nested schemas: files of rows with groups, lists and maps whose leaves repeat names (home.zip work.zip zip, home.city work.city, two list elements, two map keys and values), keys assigned per column PATH (one key value per leaf name / one per path / random, some paths under the footer key; the model's writer_key against crypto_metadata), independent parse, round trip, readers whose retriever grants a subset of the paths (every subset up to 3 paths, else none / each single path / all but one / random): granted columns read back exactly, refused ones fail, OpenFile does not; a wrong key for one path; " +
+		"tamper enumeration on small files with equal-sized modules (key families sharing 16 or all but one byte, explicit identifiers of 5..16 bytes sharing 4..15 bytes with the twin's): one bit of every byte (quick: every 9th byte and the 20 first/last) of every module, length field values, file truncation inside a module, " +
+		"every replacement of a module by another of the same type and size (same file; twin file with the same keys and another explicit identifier; second file from the same configuration value without identifier, by another writer or by the same writer after Reset), wrong keys: for the footer key and every column key, an independent key and the right key with one bit inverted in EACH of its bytes, x what OpenFile loads eagerly (everything / no page index / neither index nor bloom filters). A case = one file check or one tampered read; non-trivial = the file has more than 8 modules / any tampered read."
 	if c.HasOracle() {
 		lim := c.Ask("c18.limits")
 		want := fmt.Sprintf("%x %x %x", 32767, parquet.MaxRowGroups, parquet.MaxColumnIndex)
@@ -2609,6 +2970,8 @@ func run(c *core.Ctx) {
 	scenarioStrippedSignature(c)
 	scenarioPageOrdinals(c)
 	scenarioRowGroupOrdinals(c)
+	scenarioIdentifierPairs(c)
+	nestedFiles(c)
 	t2 := time.Now()
 	// (d)
 	tamperEnumeration(c)
@@ -2678,7 +3041,9 @@ func shrinkFile(c *core.Ctx, p *fparams) *fparams {
 			func(q *fparams) bool { ok := q.AllKeys; q.AllKeys = false; q.ColKeys = true; return ok },
 			func(q *fparams) bool { ok := q.ColKeys || q.AllKeys; q.ColKeys, q.AllKeys = false, false; return ok },
 			func(q *fparams) bool { ok := q.Hist != nil; q.Hist = nil; return ok },
-			func(q *fparams) bool { ok := q.KeyLen != 16; q.KeyLen = 16; return ok },
+			func(q *fparams) bool { ok := q.KeyShare != 0; q.KeyShare = 0; return ok },
+			func(q *fparams) bool { ok := q.FileIDLen != 0; q.FileIDLen = 0; return ok },
+			func(q *fparams) bool { ok := q.KeyLen != 16; q.KeyLen = 16; q.KeyShare = min(q.KeyShare, 15); return ok },
 			func(q *fparams) bool { ok := q.PageRows < 64; q.PageRows = 64; return ok },
 			func(q *fparams) bool { ok := q.Route != ""; q.Route = ""; return ok },
 			func(q *fparams) bool { return simplerRoute(q, "G:C(O,E)") },
@@ -2726,6 +3091,10 @@ func replay(c *core.Ctx, raw json.RawMessage) {
 	case "sized":
 		if r.Params != nil && r.Params.Sized != nil {
 			checkSized(c, r.Params, nil)
+		}
+	case "nested":
+		if r.Params != nil && r.Params.Nested != nil {
+			checkNested(c, r.Params, true)
 		}
 	case "history":
 		if r.Params != nil && r.Params.Hist != nil {
